@@ -72,11 +72,11 @@ def consolePrint (fc : Bytes) (outer begin end_ : Pos) (errText file : Bytes) (i
     | _, _ => none
   | _, _, _ => none
 
-/-- whether `consolePrint` takes the "context corrupted" branch -/
+/-- whether `consolePrint` takes the "context corrupted" branch: some `safeRange` (or the tail slice) is out of range -/
 def contextCorrupted (fc : Bytes) (outer begin end_ : Pos) : Bool :=
-  outer.slo > fc.length || begin.slo < outer.slo || begin.slo > fc.length ||
-  end_.slo < begin.slo || end_.slo > fc.length || end_.off < end_.slo || end_.off > fc.length ||
-  (begin.slo == end_.slo && (begin.off < begin.slo || begin.off > fc.length || end_.off < begin.off))
+  decide (outer.slo > fc.length ∨ begin.slo < outer.slo ∨ begin.slo > fc.length ∨
+    end_.slo < begin.slo ∨ end_.slo > fc.length ∨ end_.off < end_.slo ∨ end_.off > fc.length ∨
+    (begin.slo = end_.slo ∧ (begin.off < begin.slo ∨ begin.off > fc.length ∨ end_.off < begin.off)))
 
 /-- `ConsolePrint(out, outmostError, isWarning)` for a `ParseError` with `compare == nil` -/
 def PErr.consolePrint (e : PErr) (fc errText file : Bytes) (isWarning : Bool) : Option Bytes :=
